@@ -40,7 +40,6 @@ import (
 	. "vh/kit"
 
 	corecrl "github.com/notaryproject/notation-core-go/revocation/crl"
-	"github.com/notaryproject/notation-go/verifbridge"
 	"github.com/notaryproject/notation-go/verifier/crl"
 )
 
